@@ -22,7 +22,7 @@ from core.loader import AnalysisError, FuncInfo, Repo
 from core.report import Result
 
 from .c04_norm import leaves, loc, rename_atoms, restrict, show_loc, strip_abs, unbox
-from .c04_symx import FALSE, TRUE, Event, Formula, SymX, Term, Trace, atom, atoms_of, f_and, f_not, f_or, implies, show, show_formula, simplify, substitute, subterms
+from .c04_symx import FALSE, TRUE, Event, Formula, SymX, Term, Trace, atom, atoms_of, equivalent, f_and, f_not, f_or, implies, show, show_formula, simplify, substitute, subterms
 from .common import stmt_of, types_of, where
 
 PARSER = "pytestarch.eval_structure_generation.file_import.parser"
@@ -157,7 +157,17 @@ def _path_of(name: Term) -> Term | None:
 # --------------------------------------------------------------------------- classification of guard atoms
 
 
-def classify_atoms(sx: SymX, f: Formula, path: Term | None):
+def guard_atoms(t: Term) -> set[str]:
+    """Atom keys of the guards of all guarded choices inside a term."""
+    out: set[str] = set()
+    for x in subterms(t):
+        if x[0] == "phi":
+            for g, _v in x[1]:
+                out |= atoms_of(g)
+    return out
+
+
+def classify_atoms(sx: SymX, f: Formula, path: Term | None, name_atoms: frozenset = frozenset()):
     """Maps the atoms of a path condition to the vocabulary of the rule.
 
     Returns (formula over ISDIR / EXCL / PY / other atoms, {atom key: role}, [improper exclusion arguments])."""
@@ -191,6 +201,10 @@ def classify_atoms(sx: SymX, f: Formula, path: Term | None):
                 l = loc(o)
                 if l[0] == "attr" and l[2] == "suffix" and same(l[1]):
                     role = "PY"
+        elif t[0] == "cmp" and t[1] == "in" and unbox(t[3])[0] in ("tuple", "list", "set") and unbox(t[3])[1] == (("const", PY),):
+            l = loc(t[2])
+            if l[0] == "attr" and l[2] == "suffix" and same(l[1]):
+                role = "PY"
         elif t[0] == "mcall" and t[2] == "endswith" and len(t[3]) == 1 and t[3][0] == ("const", PY):
             l = loc(t[1])
             if same(l) or (l[0] == "attr" and l[2] == "name" and same(l[1])):
@@ -198,6 +212,14 @@ def classify_atoms(sx: SymX, f: Formula, path: Term | None):
         elif t[0] == "unk" and t[1].startswith("bool(<"):
             role = "WORK"  # truthiness of a mutable container (work list not empty)
         roles[key] = role
+
+    # tests about the path that this rule cannot interpret (fnmatch, suffix sets, is_file, ...)
+    for key, r in list(roles.items()):
+        t = sx.atoms.get(key)
+        if r == "other" and key in name_atoms:
+            roles[key] = "NAME"  # a case distinction of the name computation itself (e.g. 'the path is the root')
+        elif r == "other" and t is not None and target is not None and any(strip_abs(loc(x)) == target for x in subterms(t)):
+            roles[key] = "other-path"
 
     def mapping(key: str):
         r = roles.get(key, "other")
@@ -242,7 +264,8 @@ def run_registration(repo: Repo, res: Result, rule: str) -> int:
         if reg.path is None:
             res.undecide(rule, key + " [module registered]", f"cannot tell which path the registered name `{show(reg.element, 100)}` belongs to", wh)
             continue
-        f, roles, improper = classify_atoms(sx, reg.known, reg.path)
+        name_atoms = frozenset(guard_atoms(reg.element) | _name_truthiness_atoms(sx, reg.known, reg))
+        f, roles, improper = classify_atoms(sx, reg.known, reg.path, name_atoms)
         if implies(f, atom("ISDIR")):
             kind = "directory"
         elif implies(f, f_not(atom("ISDIR"))) or implies(f, atom("PY")):
@@ -253,6 +276,10 @@ def run_registration(repo: Repo, res: Result, rule: str) -> int:
         goal = f_and([f_not(atom("EXCL")), f_or([atom("ISDIR"), atom("PY")])])
         ok = implies(f, goal)
         n += 1
+        unknown = sorted(k for k, r in roles.items() if r == "other-path")
+        if not ok and unknown and not improper:
+            res.undecide(rule, key + f" [{kind} registered]", f"cannot interpret the test `{unknown[0][:120]}` on the registered path", wh)
+            continue
         if ok:
             detail = f"a {kind} is registered only if it is not excluded" + (" and is a .py file" if kind == "file" else "")
         elif improper and not implies(f, f_not(atom("EXCL"))):
@@ -265,6 +292,11 @@ def run_registration(repo: Repo, res: Result, rule: str) -> int:
         # exactly when: nothing but the scan conditions decides about a registration
         if ok:
             accepted = {k for k, r in roles.items() if r == "WORK"} | _name_truthiness_atoms(sx, reg.known, reg)
+            # case distinctions of the name computation do not decide about the registration when both cases register
+            for k in sorted(k for k, r in roles.items() if r == "NAME" and k not in accepted):
+                f_t, f_f = simplify(substitute(f, {k: True})), simplify(substitute(f, {k: False}))
+                if equivalent(substitute(f_t, {a: True for a in accepted if a in atoms_of(f_t)}), substitute(f_f, {a: True for a in accepted if a in atoms_of(f_f)})):
+                    accepted.add(k)
             f2 = simplify(substitute(f, {k: True for k in accepted if k in atoms_of(f)}))
             want = f_and([atom("ISDIR"), f_not(atom("EXCL"))]) if kind == "directory" else f_and([f_not(atom("ISDIR")), atom("PY"), f_not(atom("EXCL"))]) if kind == "file" else goal
             extra = sorted(a for a in atoms_of(f2) if a not in ("ISDIR", "EXCL", "PY"))
@@ -307,6 +339,10 @@ def run_registration(repo: Repo, res: Result, rule: str) -> int:
         goal = f_and([f_not(atom("EXCL")), atom("PY")])
         ok = implies(f, goal)
         n += 1
+        unknown = sorted(k for k, r in roles.items() if r == "other-path")
+        if not ok and unknown and not improper:
+            res.undecide(rule, key + f" [{what}]", f"cannot interpret the test `{unknown[0][:120]}` on the file's path", where(e.fi, e.node))
+            continue
         if ok:
             detail = f"{what} only if it is a .py file that is not excluded"
         elif improper and not implies(f, f_not(atom("EXCL"))):
